@@ -108,6 +108,11 @@ func runUndelegate(ctx *action.Context, tx action.RawTx) (bool, action.Response)
 		return helpers.LogAndReturnFalse(ctx.Logger, action.ErrWrongTxType, ud.Tags(), err)
 	}
 
+	// the amount must be a non-negative amount of OLT
+	if !ud.Amount.IsValid(ctx.Currencies) || ud.Amount.Currency != "OLT" {
+		return helpers.LogAndReturnFalse(ctx.Logger, action.ErrInvalidAmount, ud.Tags(), errors.New("invalid undelegate amount"))
+	}
+
 	// get coin for active delegation amount and the amount to undelegate
 	ds := ctx.NetwkDelegators.Deleg
 	ds.WithPrefix(net_delg.ActiveType)
